@@ -510,8 +510,10 @@ func main() {
 				for flags := 0; flags < 16; flags++ {
 					c := config{Name: name, Input: input, Pre: pre, Debug: flags&1 != 0, Verbose: flags&2 != 0, Help: flags&4 != 0, Ver: flags&8 != 0}
 					if quick {
-						// quick: all (name, input, pre) triples with no flags; flag subsets spread over the triples
-						if flags != 0 && (ni+ii*3+pi*7+flags)%16 != 0 {
+						// quick: all (name, input, pre) triples with no flags; flag subsets spread over the triples; and
+						// every flag subset with every input class for the grammar's own name and an override, in two
+						// pre-states in which generation can succeed (a flag must not change the outcome for any kind of input)
+						if flags != 0 && (ni+ii*3+pi*7+flags)%16 != 0 && !((ni == 0 && pi == 0) || (ni == 1 && pi == 2)) {
 							continue
 						}
 					}
